@@ -4,14 +4,16 @@
   defs : instance definitions joined by `+`
            D,<flags>,<rxp>,<snum>                 default channel set
            C,<flags>,<rxp>,<snum>,<chan>:<chan>…  freshly built channels, chan = type.vdim.mlen.gen.en.div.namehex
-                                                   (gen: 0..9 = ChannelFunc<k>, n = no function)
+                                                   (gen: 0..9 = ChannelFunc<k>, 10 = user vector function, 11 = user function
+                                                    of the call index, 12 = sparse user function of the call index,
+                                                    n = no function)
            A,<flags>,<rxp>,<snum>,<k>             the channel objects of instance k (same list object)
          the interface's write padding is set to rxp
   ops  : joined by `;`, each `<k><code>[arg]`: w<hex> write · R recv step · S stream step · r read ·
          a start · z stop · d state dump
   output: `ok` then one token per op: `.` (nothing to see) · `!e1,e2` (exceptions that ended threads) ·
          read: `-` (empty) | frame hex | `S<payload hex>` for a stream frame (unmodelled values are zero bits) ·
-         dump: <en bits>/<dividers>/<stream flag>/<len qwrite>/<len qread>
+         dump: <en bits>/<dividers>/<stream flag>/<len qwrite>/<len qread>/<call counters>
 -/
 import NxsModel.Driver.Basic
 import NxsModel.Dummy
@@ -80,7 +82,8 @@ def dummyDumpStr (w : World) (k : Nat) : String :=
     let cs := gather w.heap i.addrs
     let ens := String.ofList ((ensOf cs).map fun b => if b then '1' else '0')
     let ds := ",".intercalate ((divsOf cs).map toString)
-    s!"{ens}/{ds}/{boolStr i.flag}/{i.qwrite.length}/{i.qread.length}"
+    let calls := ",".intercalate (cs.map fun c => toString c.calls)
+    s!"{ens}/{ds}/{boolStr i.flag}/{i.qwrite.length}/{i.qread.length}/{calls}"
 
 def dummyRun (w : World) : List (Nat × Option Op) → List String
   | [] => []
